@@ -887,11 +887,17 @@ class Server:
         :param response_queue:
         :type response_queue: :py:class:`asyncio.Queue`
         """
-        while True:
-            args = await response_queue.get()
-            try:
-                await self.write_response(stream, *args)
-            finally:
+        try:
+            while True:
+                args = await response_queue.get()
+                try:
+                    await self.write_response(stream, *args)
+                finally:
+                    response_queue.task_done()
+        finally:
+            # nobody will write the rest: do not keep join() waiting
+            while not response_queue.empty():
+                response_queue.get_nowait()
                 response_queue.task_done()
 
     async def dispatcher(self, reader, writer):
@@ -967,7 +973,15 @@ class Server:
                     # this is "command" result
                     if isinstance(result, bool):
                         if not result:
-                            await response_queue.join()
+                            # flush replies, within the bound for a peer
+                            # that does not take them
+                            try:
+                                await asyncio.wait_for(
+                                    response_queue.join(),
+                                    self.idle_timeout,
+                                )
+                            except asyncio.TimeoutError:
+                                pass
                             return
                     # this is parse_command result
                     elif isinstance(result, tuple):
